@@ -56,6 +56,15 @@ func genScStep(depth int) *rapid.Generator[lworld.Step] {
 			st.K = []byte(rapid.SampledFrom(scKeys).Draw(t, "k"))
 		case "cross":
 			st.V = rapid.SliceOfN(rapid.Byte(), 1, 40).Draw(t, "v") // K is assigned uniquely when the script is run
+			if rapid.IntRange(0, 3).Draw(t, "long") == 0 {
+				// record contents around power-of-two sizes (leaf hashing, var-bytes prefixes, buffers)
+				n := rapid.SampledFrom([]int{63, 64, 65, 127, 128, 129, 252, 253, 255, 256, 257, 511, 512, 513, 1023, 1024, 1025}).Draw(t, "len")
+				seed := rapid.Byte().Draw(t, "fill")
+				st.V = make([]byte, n)
+				for i := range st.V {
+					st.V[i] = seed + byte(i*7)
+				}
+			}
 		case "notify":
 			st.V = rapid.SliceOfN(rapid.Byte(), 0, 4).Draw(t, "v")
 		case "call":
@@ -295,7 +304,7 @@ func checkExecResult(ctx *ev.Ctx, height int, r *scBlockRun, res store.ExecuteRe
 				ctx.Failf("block %d tx %d: events %v, model %v", height, i, got, m.Notify)
 			}
 			for _, rec := range m.Cross {
-				wantCross = append(wantCross, merkle.HashLeaf(rec))
+				wantCross = append(wantCross, lworld.RefLeafHash(rec))
 			}
 		} else {
 			ctx.Label("tx:fail")
@@ -461,6 +470,10 @@ func runC08(ctx *ev.Ctx, c scCase) {
 		if err != nil {
 			ctx.Failf("proof for record %q of block %d (%d records) does not verify against the block's cross-state root: %v", rc.key, rc.height, perBlock[rc.height], err)
 		}
+		// a destination chain verifies with its own hashing, not with this node's helpers
+		if rv, rerr := lworld.RefVerifyPath(proof, root); rerr != nil || !bytes.Equal(rv, rc.val) {
+			ctx.Failf("proof for record %q (%d bytes) of block %d verifies with the node's own MerkleProve but not with an independent RFC 6962 verifier: %v", rc.key, len(rc.val), rc.height, rerr)
+		}
 		if !bytes.Equal(val, rc.val) {
 			ctx.Failf("proof for record %q of block %d yields %x, stored record is %x", rc.key, rc.height, val, rc.val)
 		}
@@ -503,6 +516,9 @@ func runC08(ctx *ev.Ctx, c scCase) {
 				ctx.Failf("GetMerkleProof(%d,%d): %v", h, r, err)
 			}
 			val, err := merkle.MerkleProve(proof, hr.BlockRoot[:])
+			if err == nil {
+				val, err = lworld.RefVerifyPath(proof, hr.BlockRoot) // and with an independent verifier (own hashing)
+			}
 			if err != nil {
 				ctx.Failf("block-inclusion proof (h=%d, r=%d) does not verify against header %d block root: %v", h, r, r, err)
 			}
